@@ -12,6 +12,7 @@ import PetgraphModel.Proofs.C02W4Query
 import PetgraphModel.Proofs.C02W4Calls
 import PetgraphModel.Proofs.C02W4Extend
 import PetgraphModel.Proofs.C02W4History
+import PetgraphModel.Proofs.C02W6Iter
 /-
 C02 — `StableGraph` keeps every surviving index valid and its bookkeeping exact.
 
@@ -548,5 +549,124 @@ example : (construct true 255 false true (.fromElements [.node 5, .node 6, .edge
       (fun r => r.map abs) =
     some (fromElementsSpec true 255 [.node 5, .node 6, .edge 0 1 7, .edge 1 1 8] (SGSpec.empty true)) ∧
     (construct true 255 false true (.fromElements [.node 5, .edge 0 1 7])).toOption = some none := by decide
+
+/-! ## wave 6: corners of the public API
+
+The state-free corners (iterator contracts, `clone`/`clone_from`/`Default`, trait views, `Debug` never panics, `visit_map`/
+`reset_map`, `GetAdjacencyMatrix`, the `IntoWeightedEdge` forms, `filter_elements`, the `u16` limit) are LAWS the harness
+checks on the implementation itself (`harness/src/c02laws.rs`, `docs/C02_api.md`).  Two of them have a mirror and are proved
+here: the content of the `Debug` rendering, and the `Iterator`/`DoubleEndedIterator` contract of the slice iterators
+`NodeIndices`/`EdgeIndices`/`NodeReferences`/`EdgeReferences` (`SG.Win`: `next` = `ex_find_map`, `next_back` = `ex_rfind_map`,
+`size_hint = (0, upper bound of the slice)`). -/
+
+/-- **`Debug`**: under the invariant everything the rendering shows except the heads of the two vacancy lists — edge type, the
+two counts, the endpoints of the live edges, the weight maps of the live nodes and edges, all in index order — is a function of
+the reference multigraph (`specDbg`): a removed element is never shown, a live one always.  (The driver compares the whole
+text with `renderDbg (dbgView s)` and judges the live parts of the implementation's text against `specDbg` of the reference.) -/
+theorem C02_debug_refines (s : State) (hinv : Inv s) : (dbgView s).live = specDbg (abs s) := by
+  obtain ⟨hn, he, _, _, _, _, hnr, her, _, _⟩ := C02_counts_bounds_iterators s hinv
+  have hd : (abs s).directed = s.directed := rfl
+  simp only [dbgView, DbgView.live, specDbg, hd, ← hn, ← he, ← hnr, ← her, List.map_map]
+  rfl
+
+/-- **`next`** of a slice iterator: `None` exactly when no live slot is left (and the iterator stays exhausted), otherwise the
+first item of the remaining sequence; the rest remains. -/
+theorem C02_iter_next (w : Win) :
+    match w.next with
+    | (none, w') => w.items = [] ∧ w'.items = [] ∧ w'.slots = []
+    | (some i, w') => w.items = i :: w'.items ∧ w'.slots.length < w.slots.length :=
+  Win.next_spec w.slots w.base
+
+/-- **`next_back`**: `None` exactly when no live slot is left, otherwise the LAST item of the remaining sequence; everything
+before it remains — `rev()` yields the reverse of what `next` yields. -/
+theorem C02_iter_next_back (w : Win) :
+    match w.nextBack with
+    | (none, w') => w.items = [] ∧ w'.items = [] ∧ w'.slots = []
+    | (some i, w') => w.items = w'.items ++ [i] ∧ w'.slots.length < w.slots.length :=
+  Win.nextBack_spec w
+
+/-- **`size_hint`** brackets the number of items still to come, in every state of the iterator (fresh, after any number of
+`next`/`next_back` calls). -/
+theorem C02_iter_size_hint (w : Win) : w.sizeHint.1 ≤ w.items.length ∧ w.items.length ≤ w.sizeHint.2 :=
+  Win.sizeHint_spec w
+
+/-- the variant "forward the hint of the underlying slice" (lower bound = number of remaining SLOTS) is false as soon as a
+vacant slot remains: a one-slot window whose slot is vacant promises one item and yields none. -/
+theorem C02_iter_size_hint_slots_false_witness :
+    ∃ w : Win, ¬ (w.slots.length ≤ w.items.length) :=
+  ⟨⟨0, [false]⟩, by decide⟩
+
+/-- **meet in the middle**: for ANY mixture of `next` and `next_back` calls the items obtained from the front, the items the
+iterator that is left would still yield, and the items obtained from the back (latest first) are together exactly the one
+sequence the iterator stood for — every way of reading the iterator describes the same set of elements. -/
+theorem C02_iter_meet_in_the_middle (ds : List Bool) (w : Win) :
+    w.items = (Win.drive ds w).1 ++ (Win.drive ds w).2.2.items ++ (Win.drive ds w).2.1 :=
+  Win.drive_spec ds w
+
+/-- a fresh `node_indices()` / `edge_indices()` (the index component of `node_references()` / `edge_references()`) stands for
+the live nodes / edges of the reference multigraph, ascending; there are `node_count` / `edge_count` of them. -/
+theorem C02_iter_fresh (s : State) (hinv : Inv s) :
+    (Win.ofSlots (s.nodes.map (·.w))).items = (abs s).nodeIds ∧ (Win.ofSlots (s.edges.map (·.w))).items = (abs s).edgeIds ∧
+    (Win.ofSlots (s.nodes.map (·.w))).items.length = s.nodeCount ∧ (Win.ofSlots (s.edges.map (·.w))).items.length = s.edgeCount := by
+  obtain ⟨_, _, _, _, hni, hei, _, _, hnl, hel⟩ := C02_counts_bounds_iterators s hinv
+  rw [Win.items_nodeIndices, Win.items_edgeIndices]
+  exact ⟨hni, hei, hnl, hel⟩
+
+/-- **`retain_*` whose closure also writes** (through `IndexMut` of the `Frozen` proxy it is handed): the driver runs such a call
+as "add `c` to every live weight, then `retain_*`" — a write happens when the element is shown, i.e. before any later removal,
+and removals never read weights.  That composite never faults, keeps the invariant, shows the closure exactly the live
+elements in index order and refines "`map` the weights, then drop the rejected elements" of the reference. -/
+theorem C02_retain_with_writes (s : State) (rm : List Nat) (c : Int) (hinv : Inv s) :
+    (∃ s' vis, retainNodes (mapGraph s c 0).1 rm = .ok (s', vis) ∧ Inv s' ∧
+      abs s' = ((abs s).mapWeights c 0).retainNodes rm ∧
+      vis = (List.range ((abs s).mapWeights c 0).nodeBound).filter (fun i => ((abs s).mapWeights c 0).nodeLive i)) ∧
+    (∃ s' vis, retainEdges (mapGraph s 0 c).1 rm = .ok (s', vis) ∧ Inv s' ∧
+      abs s' = ((abs s).mapWeights 0 c).retainEdges rm ∧
+      vis = (List.range ((abs s).mapWeights 0 c).edgeBound).filter (fun i => ((abs s).mapWeights 0 c).edgeLive i)) := by
+  constructor
+  · obtain ⟨s1, o1, h1, hinv1⟩ := C02_inv_step s (.map c 0) hinv
+    have e1 : s1 = (mapGraph s c 0).1 := by
+      simp only [step] at h1
+      cases h1; rfl
+    subst e1
+    obtain ⟨s2, o2, h2, hinv2⟩ := C02_inv_step _ (.retainNodes rm) hinv1
+    simp only [step] at h2
+    cases hr : retainNodes (mapGraph s c 0).1 rm with
+    | error x => rw [hr] at h2; cases h2
+    | ok p =>
+      rw [hr] at h2
+      obtain ⟨s', vis⟩ := p
+      have hs : s' = s2 := by simp only [Except.ok.injEq, Prod.mk.injEq] at h2; exact h2.1
+      subst hs
+      have := (C02_retain_refines _ s' rm vis hinv1).1 hr
+      rw [(C02_whole_graph_refines s c 0 0 0).2.2.2.1] at this
+      exact ⟨s', vis, rfl, hinv2, this.1, this.2⟩
+  · obtain ⟨s1, o1, h1, hinv1⟩ := C02_inv_step s (.map 0 c) hinv
+    have e1 : s1 = (mapGraph s 0 c).1 := by
+      simp only [step] at h1
+      cases h1; rfl
+    subst e1
+    obtain ⟨s2, o2, h2, hinv2⟩ := C02_inv_step _ (.retainEdges rm) hinv1
+    simp only [step] at h2
+    cases hr : retainEdges (mapGraph s 0 c).1 rm with
+    | error x => rw [hr] at h2; cases h2
+    | ok p =>
+      rw [hr] at h2
+      obtain ⟨s', vis⟩ := p
+      have hs : s' = s2 := by simp only [Except.ok.injEq, Prod.mk.injEq] at h2; exact h2.1
+      subst hs
+      have := (C02_retain_refines _ s' rm vis hinv1).2 hr
+      rw [(C02_whole_graph_refines s 0 c 0 0).2.2.2.1] at this
+      exact ⟨s', vis, rfl, hinv2, this.1, this.2⟩
+
+/-! non-vacuity of the wave-6 statements: a window with vacancies at both ends and in the middle, read from both ends; the `Debug`
+view of a state with a vacancy of each kind. -/
+example : (Win.drive [false, true, true, false, false] ⟨0, [false, true, true, false, true, true, false]⟩) =
+    ([1, 2], [4, 5], ⟨4, []⟩) := by decide
+
+example : (Win.mk 3 [false, true, false, true]).items = [4, 6] ∧ (Win.mk 3 [false, true, false, true]).sizeHint = (0, 4) := by decide
+
+example : (run (empty true 255 false true) (demoOps.take 9)).toOption.map (fun p => dbgView p.1) =
+    some ⟨true, 2, 1, [(2, 2)], [(1, 2), (2, 3)], [(2, 12)], 0, 0⟩ := by decide
 
 end PetgraphModel.C02T
